@@ -92,3 +92,55 @@ extern "C" void h_agree() {
     if (order_free) for (int i = 0; i < NE; i++) VP_ASSERT(re.calls[i] == rs.calls[i] && re.got[i] == rs.got[i], "epoll and select deliver the same callbacks for order-independent scenarios");
     VP_REACH("agree");
 }
+
+// ---- several passes inside ONE runLoop(kForever) call: readiness of three descriptors (one of them descriptor 0) symbolic per pass.
+// The epoll receive array starts with room for 2 entries (max_loop_entries_ set directly), so the "array was full -> grow" step and the
+// pass after it are covered with 3 descriptors instead of 256+.
+#ifndef MPASS
+#define MPASS 2
+#endif
+static const int MFDS[3] = {0, 10, 11};
+struct MRun { Loop *loop; int pass; unsigned rdy[MPASS][3]; int calls[MPASS][3]; };
+static MRun *MR;
+static void m_on_wait() {
+    MR->pass++;
+    for (int i = 0; i < 3; i++) vk::ready[MFDS[i]] = (MR->pass < MPASS) ? MR->rdy[MR->pass][i] : 0;
+    if (MR->pass >= MPASS) MR->loop->exitLoop(std::chrono::milliseconds(0));            // the pass after the last scripted one finds nothing ready and ends the loop
+}
+static void m_shrink(EpollLoop &l) { l.max_loop_entries_ = 2; }
+static void m_shrink(SelectLoop &) {}
+template <class LOOP> static void run_multi(bool small_array) {
+    vk::reset(); MRun r; MR = &r; r.pass = -1;
+    for (int p = 0; p < MPASS; p++) for (int i = 0; i < 3; i++) { r.rdy[p][i] = nondet_bool() ? 1u : 0u; r.calls[p][i] = 0; }
+    {
+        LOOP loop; r.loop = &loop;
+        if (small_array) m_shrink(loop);
+        FdEvent *ev[3];
+        for (int i = 0; i < 3; i++) {
+            ev[i] = loop.newFdEvent("m");
+            VP_ASSERT(ev[i]->initialize(MFDS[i], FdEvent::kReadEvent, Event::Mode::kPersist), "initialize");
+            ev[i]->setCallback([i](short e) {
+                VP_ASSERT(MR->pass >= 0 && MR->pass < MPASS, "no callback in a pass in which nothing is ready");
+                VP_ASSERT((e & FdEvent::kReadEvent) && MR->rdy[MR->pass][i], "callback only when the descriptor is ready for the subscribed condition");
+                MR->calls[MR->pass][i]++;
+            });
+            ev[i]->enable();
+        }
+        vk::on_wait = m_on_wait;
+        loop.runLoop(Loop::Mode::kForever);                                              // an exception leaving runLoop() is a violation (reported by the engine)
+        vk::on_wait = nullptr;
+        for (int i = 0; i < 3; i++) delete ev[i];
+        loop.cleanup();
+    }
+    int cap = small_array ? 2 : 256;
+    for (int p = 0; p < MPASS; p++) {
+        int nready = 0; for (int i = 0; i < 3; i++) nready += r.rdy[p][i];
+        for (int i = 0; i < 3; i++) {
+            VP_ASSERT(r.calls[p][i] <= (int)r.rdy[p][i], "at most one callback per ready event and pass");
+            if (nready <= cap) VP_ASSERT(r.calls[p][i] == (int)r.rdy[p][i], "a persistent enabled event is called in every pass in which its descriptor is ready (earlier passes must not have unregistered it)");
+        }
+        if (nready >= cap) cap += cap / 2;                                              // documented growth of the epoll receive array after a full pass
+    }
+}
+extern "C" void h_multi_epoll() { run_multi<EpollLoop>(true); VP_REACH("multi_epoll"); }
+extern "C" void h_multi_select() { run_multi<SelectLoop>(false); VP_REACH("multi_select"); }
